@@ -40,7 +40,7 @@ for f in sorted(mp, key=fkey):
         what = fixed.get(f, {}).get("what", "")
         out.append("| revert-%s | %s | %s | %s |" % (f, p, short(what), r.get(p, "not run")))
 out.append("")
-out.append("## Seeded changes (isolated sub-agents; waves 1–4 = suffixes 1-2, 3-4, 5-6, 7-8)\n")
+out.append("## Seeded changes (isolated sub-agents; waves 1–7 = suffixes 1-2, 3-4, …, 13-14; wave 8 = suffix 15)\n")
 out.append("| change | property | what it breaks | first run | now |")
 out.append("|---|---|---|---|---|")
 tot = {"caught": 0, "tie": 0, "missed": 0, "other": 0}
